@@ -784,7 +784,10 @@ func (c *ReverseExpandQuery) exclusionHandler(
 		}
 
 		newReq := req.clone()
-		return c.shallowClone().loopOverEdges(
+		// The results go straight to the caller's resultChan, so they must be de-duplicated against the
+		// caller's candidate map: a shallow clone starts with a fresh map and would return an object again
+		// that another branch of the same query has already sent.
+		return c.loopOverEdges(
 			ctx,
 			newReq,
 			baseEdges,
